@@ -2,7 +2,7 @@
 container pushes, node literals, link writes, motion-checker calls, validity / goal queries."""
 import re
 
-from .core import (IS_VALID, IS_SATISFIED, VEC_PUSH, VEC_CLEAR, DISTANCE, INTERPOLATE, user_call)
+from .core import (IS_VALID, IS_SATISFIED, VEC_PUSH, VEC_CLEAR, VEC_LEN, DISTANCE, INTERPOLATE, user_call)
 from .engine import walk, strip_clone, fmt_terms, T
 
 
@@ -165,3 +165,330 @@ def container_state(ts, planner=None):
             else:
                 return None
     return out
+
+
+# ---------------------------------------------------------------------------------------------
+# index lists, node-index resolution, links
+
+def subst(ts, old, new):
+    """replace every occurrence of the term set `old` (as a child set) inside ts by `new`"""
+    if ts == old:
+        return new
+    out = set()
+    for n in ts:
+        out.add(_subst_node(n, old, new))
+    return frozenset(out)
+
+
+def _subst_node(n, old, new):
+    parts = [n[0]]
+    for c in n[1:]:
+        if isinstance(c, frozenset):
+            parts.append(subst(c, old, new))
+        elif isinstance(c, tuple):
+            sub = []
+            for cc in c:
+                if isinstance(cc, frozenset):
+                    sub.append(subst(cc, old, new))
+                elif isinstance(cc, tuple) and len(cc) == 2 and isinstance(cc[1], frozenset):
+                    sub.append((cc[0], subst(cc[1], old, new)))
+                else:
+                    sub.append(cc)
+            parts.append(tuple(sub))
+        else:
+            parts.append(c)
+    return tuple(parts)
+
+
+def iter_source(idx_terms):
+    """idx_terms == { unwrap(next(IT)) } (possibly behind .0/.1 of an enumerate element) -> IT terms"""
+    if len(idx_terms) != 1:
+        return None
+    n = next(iter(idx_terms))
+    if n[0] != 'unwrap' or len(n[1]) != 1:
+        return None
+    m = next(iter(n[1]))
+    if m[0] == 'call' and m[1] == 'std::iter::Iterator::next' and m[2]:
+        it = m[2][0]
+        # look through slice::iter / iter().copied() adaptors
+        changed = True
+        while changed and len(it) == 1:
+            changed = False
+            q = next(iter(it))
+            if q[0] == 'call' and q[1] in ('core::slice::<impl [T]>::iter', 'std::iter::Iterator::copied',
+                                           'std::iter::Iterator::cloned', 'std::collections::VecDeque::<T, A>::iter') and q[2]:
+                it = q[2][0]
+                changed = True
+        return it
+    return None
+
+
+LIST_NEW = ('std::vec::Vec::<T>::new', 'std::vec::Vec::<T>::with_capacity', 'std::collections::VecDeque::<T>::new')
+LIST_PUSH = (VEC_PUSH, 'std::collections::VecDeque::<T, A>::push_back', 'std::collections::VecDeque::<T, A>::push_front')
+
+
+def list_creations(ts):
+    """creation sites (call nodes of Vec::new & co) mentioned at the top of a list's term set"""
+    out = set()
+    for n in ts:
+        if n[0] == 'call' and n[1] in LIST_NEW:
+            out.add(n)
+        elif n[0] == 'out' and n[1] in LIST_PUSH:
+            out |= list_creations(n[3][0])
+        elif n[0] == 'clone':
+            out |= list_creations(n[1])
+    return out
+
+
+def list_pushes(fn, creations):
+    """all pushes into the local lists created at the given creation nodes: [(block, value terms, terminator)]"""
+    out = []
+    for bi, t in fn.b.calls():
+        if t['func'].get('path') not in LIST_PUSH:
+            continue
+        a0 = t['args'][0]
+        pl = a0.get('move') or a0.get('copy')
+        if pl is None:
+            continue
+        idt = fn.place_terms(pl, (bi, fn.nstmts(bi)), mut_kills=False)
+        if idt and all(n in creations for n in idt):
+            out.append((bi, fn.arg_terms(t, 1, bi), t))
+    return out
+
+
+def pushed_node_for_index(ctx, planner, fn, cont, idx):
+    """if idx denotes the index of a node pushed in this function (len(cont) read just before the push, or
+    len(cont)-1 read just after it) return that push record, else None"""
+    plist = [pu for pu in pushes(ctx, planner) if pu['fn'] is fn and pu['cont'] == cont]
+    if len(idx) != 1:
+        return None
+    n = next(iter(idx))
+    minus1 = False
+    if n[0] == 'field' and n[2] == '0' and len(n[1]) == 1:
+        m = next(iter(n[1]))
+        if m[0] == 'binop' and m[1] in ('SubWithOverflow', 'Sub', 'SubUnchecked') and len(m[3]) == 1 and \
+                next(iter(m[3])) == ('const', '1'):
+            n = next(iter(m[2])) if len(m[2]) == 1 else n
+            minus1 = True
+    elif n[0] == 'binop' and n[1] in ('Sub', 'SubUnchecked') and len(n[3]) == 1 and next(iter(n[3])) == ('const', '1'):
+        n = next(iter(n[2])) if len(n[2]) == 1 else n
+        minus1 = True
+    if not (n[0] == 'call' and n[1] == VEC_LEN and n[2] and n[2][0] == cont):
+        return None
+    site = n[3][1]
+    lp = (site, fn.nstmts(site))
+    cands = []
+    for pu in plist:
+        pp = (pu['block'], fn.nstmts(pu['block']))
+        others = [o for o in plist if o is not pu]
+        if not minus1:
+            # len read, then this push, no other push to the container in between
+            fwd, back = fn.points_between(lp, pp)
+            if pp in fwd and not any(fn.executes_between((o['block'], fn.nstmts(o['block'])), lp, pp) for o in others):
+                cands.append(pu)
+        else:
+            fwd, back = fn.points_between(pp, lp)
+            if lp in fwd and not any(fn.executes_between((o['block'], fn.nstmts(o['block'])), pp, lp) for o in others):
+                cands.append(pu)
+    return cands[0] if len(cands) == 1 else None
+
+
+def norm_state(ctx, planner, fn, ts):
+    """clone-transparent state terms in which <cont>[idx].state with idx the index of a node pushed in this
+    function is replaced by that node's state terms"""
+    ts = strip_clone(ts)
+    out = set()
+    sfields = {c['state_field'] for c in planner['containers'].values()}
+    for n in ts:
+        rep = None
+        if n[0] == 'field' and n[2] in sfields and len(n[1]) == 1:
+            m = next(iter(n[1]))
+            if m[0] == 'index':
+                pu = pushed_node_for_index(ctx, planner, fn, m[1], m[2])
+                if pu is not None:
+                    st = node_field(pu['node'], pu['cinfo']['state_field'])
+                    if st is not None:
+                        rep = strip_clone(st)
+        if rep is not None:
+            out |= rep
+        else:
+            out.add(n)
+    return frozenset(out)
+
+
+def node_state_term(cont, idx, state_field):
+    return T(('field', T(('index', cont, idx)), state_field))
+
+
+def stores_to_node_field(ctx, planner):
+    """assignments  (*X).<field> = V  where X = index_mut(container, J):  [(fn, body, block, stmt idx, cont, J, field, V terms, stmt)]"""
+    out = []
+    link_fields = set()
+    for c in planner['containers'].values():
+        link_fields |= set(c['links']) | {c['state_field']}
+    for b in planner_bodies(planner):
+        fn = ctx.fn(b)
+        for bi, blk in enumerate(b.blocks):
+            if blk['cleanup']:
+                continue
+            for si, st in enumerate(blk['stmts']):
+                if st['k'] != 'assign':
+                    continue
+                pl = st['place']
+                names = [e.get('name') for e in pl['p'] if isinstance(e, dict) and 'f' in e]
+                if not names or names[-1] not in link_fields or not any(e == 'deref' for e in pl['p']):
+                    continue
+                # base pointer must denote a node of a container
+                base = {'l': pl['l'], 'p': []}
+                bt = fn.place_terms(base, (bi, si), mut_kills=False)
+                # also allow (*self).tree[..] style (not produced by rustc for Vec) -> only index_mut results
+                ok = bool(bt) and all(n[0] == 'index' for n in bt)
+                if not ok:
+                    # could be a node local's field (new_node.edges = ...) : skip, handled via literals
+                    continue
+                for n in bt:
+                    out.append({'fn': fn, 'body': b, 'block': bi, 'idx': si, 'cont': n[1], 'J': n[2], 'field': names[-1],
+                                'value': fn.rvalue_terms(st['rv'], (bi, si)), 'stmt': st})
+    return out
+
+
+def find_literals(fn, op, point, want, depth=0):
+    """follow the reaching definitions of operand `op` back to aggregate statements accepted by
+    want(rv) -> bool; returns [(block, idx, stmt)] and a flag telling whether some definition was not a literal"""
+    out = []
+    other = False
+    if 'const' in op or depth > 10:
+        return out, True
+    pl = op.get('move') or op.get('copy')
+    if pl is None or pl['p']:
+        return out, True
+    evs, entry = fn.reaching(pl['l'], point, (), True, whole_only=True)
+    if entry or not evs:
+        other = True
+    for e in evs:
+        if e.kind == 'assign' and e.data['k'] == 'assign':
+            rv = e.data['rv']
+            if rv['k'] == 'agg' and want(rv):
+                out.append((e.block, e.idx, e.data))
+                continue
+            if rv['k'] == 'use' and not e.path:
+                o2, oth2 = find_literals(fn, rv['op'], (e.block, e.idx), want, depth + 1)
+                out.extend(o2)
+                other = other or oth2
+                continue
+        other = True
+    return out, other
+
+
+def _field_operand(stmt, name):
+    rv = stmt['rv']
+    names = rv.get('field_names', [])
+    for i, f in enumerate(rv['fields']):
+        if i < len(names) and names[i] == name:
+            return f
+    return None
+
+
+def collect_links(ctx, planner):
+    """every place where an edge of the search structure is created.  Each record:
+       kind, fn, body, block (where the link becomes effective), a (state terms of one end point),
+       cont (container terms of the other end), defs: [(def block, index terms)] of the other end's index"""
+    links = []
+    problems = []
+    conts = planner['containers']
+    link_names = set()
+    for c in conts.values():
+        link_names |= set(c['links'])
+    parent_fields = {l for l in link_names if 'parent' in l}
+    list_fields = {l for l in link_names if l not in parent_fields}
+    # A: node literals pushed with a parent
+    for pu in pushes(ctx, planner):
+        fn, b, bi = pu['fn'], pu['body'], pu['block']
+        t = pu['term']
+        lits, other = find_literals(fn, t['args'][1], (bi, fn.nstmts(bi)),
+                                    lambda rv: rv.get('adt') == pu['cinfo']['node'])
+        if other or not lits:
+            problems.append((b, bi, 'pushed node is not a struct literal'))
+            continue
+        for (lb, li, lst) in lits:
+            st_terms = fn.op_terms(_field_operand(lst, pu['cinfo']['state_field']), (lb, li))
+            for pf in parent_fields:
+                fop = _field_operand(lst, pf)
+                if fop is None:
+                    continue
+                somes, oth = find_literals(fn, fop, (lb, li), lambda rv: rv.get('variant_name') in ('Some', 'None'))
+                if oth:
+                    problems.append((b, bi, 'parent link of a pushed node is not a Some(..)/None literal'))
+                for (sb, si, sst) in somes:
+                    if sst['rv']['variant_name'] == 'None':
+                        continue
+                    defs = [(db, tt) for (db, _di, tt) in fn.split_defs(sst['rv']['fields'][0], (sb, si))]
+                    links.append({'kind': 'push-parent', 'fn': fn, 'body': b, 'block': bi, 'a': st_terms,
+                                  'cont': pu['cont'], 'defs': defs, 'cinfo': pu['cinfo']})
+    # B: stores into an existing node's parent field
+    for stw in stores_to_node_field(ctx, planner):
+        if stw['field'] not in parent_fields:
+            continue
+        fn, b = stw['fn'], stw['body']
+        cinfo = [c for c in conts.values() if stw['field'] in c['links']][0]
+        rv = stw['stmt']['rv']
+        op = rv['op'] if rv['k'] == 'use' else None
+        somes = []
+        if rv['k'] == 'agg' and rv.get('variant_name') == 'Some':
+            somes = [(stw['block'], stw['idx'], stw['stmt'])]
+        elif op is not None:
+            somes, oth = find_literals(fn, op, (stw['block'], stw['idx']), lambda r: r.get('variant_name') in ('Some', 'None'))
+            if oth:
+                problems.append((b, stw['block'], 'value stored into a parent link is not a Some(..)/None literal'))
+        for (sb, si, sst) in somes:
+            if sst['rv']['variant_name'] == 'None':
+                problems.append((b, stw['block'], 'an existing node is detached (parent set to None)'))
+                continue
+            defs = [(db, tt) for (db, _di, tt) in fn.split_defs(sst['rv']['fields'][0], (sb, si))]
+            links.append({'kind': 'rewire', 'fn': fn, 'body': b, 'block': stw['block'],
+                          'a': node_state_term(stw['cont'], stw['J'], cinfo['state_field']),
+                          'cont': stw['cont'], 'defs': defs, 'cinfo': cinfo, 'J': stw['J']})
+    # C: indices pushed into a node's adjacency list
+    for b in planner_bodies(planner):
+        fn = ctx.fn(b)
+        for bi, t in b.calls():
+            if t['func'].get('path') not in LIST_PUSH:
+                continue
+            a0 = t['args'][0]
+            pl = a0.get('move') or a0.get('copy')
+            if pl is None:
+                continue
+            root = fn.borrow_root(pl['l'])
+            recv = fn.place_terms(pl, (bi, fn.nstmts(bi)), mut_kills=False)
+            hit = None
+            # (i) field of a node local:  &mut new_node.edges
+            if root is not None and root[1] and root[1][-1] in list_fields:
+                nty = b.local_ty(root[0])
+                for c in conts.values():
+                    if nty.startswith(c['node'] + '<'):
+                        hit = ('local', root[0], c)
+            # (ii) field of a container element:  &mut (*index_mut(C, i)).edges
+            if hit is None and recv and all(n[0] == 'field' and n[2] in list_fields for n in recv):
+                inner = set()
+                for n in recv:
+                    inner |= n[1]
+                if inner and all(m[0] == 'index' for m in inner):
+                    hit = ('elem', frozenset(inner), [c for c in conts.values() if any(n[2] in c['links'] for n in recv)][0])
+            if hit is None:
+                continue
+            vdefs = [(db, tt) for (db, _di, tt) in fn.split_defs(t['args'][1], (bi, fn.nstmts(bi)))]
+            if hit[0] == 'local':
+                c = hit[2]
+                a = fn.place_terms({'l': hit[1], 'p': [{'f': 0, 'name': c['state_field'], 'ty': 'S'}]}, (bi, fn.nstmts(bi)))
+                # the container this node type lives in
+                cont_names = [k for k, v in conts.items() if v is c]
+                cont = T(('field', T(('param', 1, 'self')), cont_names[0]))
+                links.append({'kind': 'edge-new', 'fn': fn, 'body': b, 'block': bi, 'a': a, 'cont': cont,
+                              'defs': vdefs, 'cinfo': c, 'node_local': hit[1]})
+            else:
+                c = hit[2]
+                for m in hit[1]:
+                    links.append({'kind': 'edge-elem', 'fn': fn, 'body': b, 'block': bi,
+                                  'a': node_state_term(m[1], m[2], c['state_field']), 'cont': m[1], 'defs': vdefs,
+                                  'cinfo': c, 'J': m[2]})
+    return links, problems
